@@ -237,8 +237,11 @@ def gen_case(rng, kinds=("nt", "njt", "lazy", "tc")):
 
 
 # ------------------------------------------------------------------ classification (decidable patterns = finding signatures)
+PAD_UNIT = 16   # fix: D11 (was 8)
+
+
 def pad8(n):
-    return n + ((8 - n % 8) % 8)
+    return n + ((PAD_UNIT - n % PAD_UNIT) % PAD_UNIT)
 
 
 def misaligned16(td):
@@ -784,11 +787,7 @@ def exec_case(case, plan):
     cons_infos = log.pop()[1]
     # known silent-corruption / unsupported configurations are outside the correspondence (the oracle still judges them):
     # worker threads (failures swallowed or raised where the single-thread path copies), the use_buffer storage
-    for ci in cons_infos:
-        if ci["threads"] >= 1 and (ci["unviewable"] or ci["misaligned16"]):
-            modelable = False
-        if ci["use_buffer"] and ci["effective"]:
-            modelable = False
+    # (before the repairs D113 / D112: worker threads on strided leaves and the use_buffer storage were excluded here)
     file_cons = any(op[0] == "consolidate" and op[1].get("file") for op in case["ops"])
     if modelable:
         storage = storage_of(td)
